@@ -233,24 +233,31 @@ def call_argument_cases(out):
     from jaxtyping import jaxtyped
 
     F = jaxtyping.Float
+    # ONE annotation object per dim string, used by every call below (an alias defined once at module level, the object
+    # held in a signature): its verdict depends on the arguments of the call that is current, not of an earlier one
+    A_n, A_lenxs, A_bw, A_rest_kw, A_b, A_b1 = (F[Duck, "{n}"], F[Duck, "{len(xs)}"], F[Duck, "{b} {w}"], F[Duck, "{len(rest)}+{len(kw)}"],
+                                               F[Duck, "{b}"], F[Duck, "{b}+1"])
     for style, deco in (("none", jaxtyped(typechecker=None)), ("typeguard", jaxtyped(typechecker=typeguard.typechecked))):
         @deco
         def star(*xs, n=3):
-            return [impl.check_once(Duck((k,), "float32"), F[Duck, "{n}"]) for k in (n, n + 1)] + [impl.check_once(Duck((len(xs),), "float32"), F[Duck, "{len(xs)}"])]
+            return [impl.check_once(Duck((k,), "float32"), A_n) for k in (n, n + 1)] + [impl.check_once(Duck((len(xs),), "float32"), A_lenxs)]
 
         @deco
         def mixed(a, b=2, *rest, w=5, **kw):
-            return [impl.check_once(Duck((b, w), "float32"), F[Duck, "{b} {w}"]), impl.check_once(Duck((b + 1, w), "float32"), F[Duck, "{b} {w}"]),
-                    impl.check_once(Duck((len(rest) + len(kw),), "float32"), F[Duck, "{len(rest)}+{len(kw)}"])]
+            return [impl.check_once(Duck((b, w), "float32"), A_bw), impl.check_once(Duck((b + 1, w), "float32"), A_bw),
+                    impl.check_once(Duck((len(rest) + len(kw),), "float32"), A_rest_kw)]
 
         @deco
         def plain(a, b=4):
-            return [impl.check_once(Duck((b,), "float32"), F[Duck, "{b}"]), impl.check_once(Duck((b,), "float32"), F[Duck, "{b}+1"])]
+            return [impl.check_once(Duck((b,), "float32"), A_b), impl.check_once(Duck((b,), "float32"), A_b1)]
 
         calls = [("star()", lambda: star(), ["T", "F", "T"]), ("star(1)", lambda: star(1), ["T", "F", "T"]), ("star(1, 2)", lambda: star(1, 2), ["T", "F", "T"]),
                  ("star(1, 2, 3, n=2)", lambda: star(1, 2, 3, n=2), ["T", "F", "T"]), ("mixed(0)", lambda: mixed(0), ["T", "F", "T"]),
                  ("mixed(0, 1, 7, 8, 9)", lambda: mixed(0, 1, 7, 8, 9), ["T", "F", "T"]), ("mixed(0, z=1, y=2, x=3, v=4)", lambda: mixed(0, z=1, y=2, x=3, v=4), ["T", "F", "T"]),
-                 ("mixed(0, 3, 9, w=1, q=0)", lambda: mixed(0, 3, 9, w=1, q=0), ["T", "F", "T"]), ("plain(1)", lambda: plain(1), ["T", "F"]), ("plain(1, 2)", lambda: plain(1, 2), ["T", "F"])]
+                 ("mixed(0, 3, 9, w=1, q=0)", lambda: mixed(0, 3, 9, w=1, q=0), ["T", "F", "T"]), ("plain(1)", lambda: plain(1), ["T", "F"]), ("plain(1, 2)", lambda: plain(1, 2), ["T", "F"]),
+                 ("star(n=4)", lambda: star(n=4), ["T", "F", "T"]), ("star(9, 9, 9, 9, n=3)", lambda: star(9, 9, 9, 9, n=3), ["T", "F", "T"]),
+                 ("mixed(0, 3)", lambda: mixed(0, 3), ["T", "F", "T"]), ("mixed(0, 2, w=6)", lambda: mixed(0, 2, w=6), ["T", "F", "T"]), ("plain(1, 5)", lambda: plain(1, 5), ["T", "F"]),
+                 ("plain(1, 4)", lambda: plain(1, 4), ["T", "F"])]
         for name, call, want in calls:
             try:
                 got = call()
@@ -262,11 +269,41 @@ def call_argument_cases(out):
                               {"call_arguments": name, "wrapper": style})
 
 
+def annotation_reuse_cases(out):
+    """one annotation OBJECT checked again under other bindings: what a symbolic axis is worth is decided by the context
+    of the check, the same shape may match now and not later (no named axis in the annotation itself)"""
+    from impl import Duck
+    from jaxtyping import Float, Shaped, jaxtyped
+
+    A = Float[Duck, "n"]
+    S1, S2, S3, S4 = Shaped[Duck, "n+1"], Shaped[Duck, "2 n*2"], Shaped[Duck, "n-1 _ ..."], Shaped[Duck, "#n+1 3"]
+    for rnd in range(2):
+        for n in (3, 5, 4, 3):
+            with jaxtyped("context"):
+                got = [impl.check_once(Duck((n,), "float32"), A)]
+                probes = [(S1, (4,)), (S1, (6,)), (S1, (5,)), (S2, (2, 6)), (S2, (2, 10)), (S2, (2, 8)), (S3, (2, 7)), (S3, (4, 7, 1)), (S3, (3, 1)), (S4, (4, 3)), (S4, (1, 3)), (S4, (6, 3))]
+                want = ["T"]
+                for ann, shape in probes:
+                    got.append(impl.check_once(Duck(shape, "float32"), ann))
+                want += ["T" if n + 1 == 4 else "F", "T" if n + 1 == 6 else "F", "T" if n + 1 == 5 else "F",
+                         "T" if 2 * n == 6 else "F", "T" if 2 * n == 10 else "F", "T" if 2 * n == 8 else "F",
+                         "T" if n - 1 == 2 else "F", "T" if n - 1 == 4 else "F", "T" if n - 1 == 3 else "F",
+                         "T" if n + 1 == 4 else "F", "T", "T" if n + 1 == 6 else "F"]
+            out.case(("annotation-reuse", rnd, n), True, sample={"n": n, "verdicts": got})
+            if got != want:
+                k = next(i for i, (a_, b_) in enumerate(zip(got, want)) if a_ != b_)
+                what = "the binding check itself" if k == 0 else f"{probes[k - 1][0].__name__ if hasattr(probes[k - 1][0], '__name__') else probes[k - 1][0]} on shape {probes[k - 1][1]}"
+                out.violation("annotation-reuse", f"with n={n} bound in a fresh context, {what} gives {got[k]} but the dim string says {want[k]} "
+                              f"(the same annotation objects were checked before under other values of n)", {"annotation_reuse": n})
+                return
+
+
 def run(tier, seed, out, drv, facts):
     rng = Rng(seed, "C01")
     thorough = tier == "thorough"
     oracle_symbolic(out)
     call_argument_cases(out)
+    annotation_reuse_cases(out)
     # corpus first
     # 1. exhaustive small scope
     batch = []
@@ -316,6 +353,9 @@ def replay(rep, out, drv, facts):
         return
     if "expr" in rep:
         oracle_symbolic(out)
+        return
+    if "annotation_reuse" in rep:
+        annotation_reuse_cases(out)
         return
     hist = rep["history"]
     run_batch(out, drv, [(hist, rep.get("args") or {})], facts, "replay", use_numpy=rep.get("numpy", False))
